@@ -16,7 +16,7 @@ CONSTANTS
   FormMenu = {"alloc"}
   DeliveryMenu <- MC_DeliveryMenu
   ExportMenu <- MC_ExportMenu
-  ShotSMenu <- NoMenu
+  ShotSMenu <- NoMenu2
   ShotRMenu <- NoMenu2
   MaxSeals = 2
   MaxOpens = 2
